@@ -1,7 +1,7 @@
 /-
   CB.Lemmas.C05Shift — value equations of the shift loops of CB/Model/Shift.lean.
 -/
-import CB.Lemmas.WordBits
+import CB.Lemmas.Chains
 import CB.Model.Bits
 import Mathlib.Tactic.Ring
 import Mathlib.Tactic.Linarith
@@ -70,9 +70,8 @@ theorem val_take {l : List Nat} (h : WF l) {k : Nat} (hk : k ≤ l.length) :
 theorem val_drop {l : List Nat} (h : WF l) {k : Nat} (hk : k ≤ l.length) :
     val (l.drop k) = val l / B ^ k := (val_take_drop h hk).2
 
-theorem uzero_val (n : Nat) : val (uzero n) = 0 := val_replicate_zero n
 theorem uzero_length (n : Nat) : (uzero n).length = n := by simp [uzero]
-theorem uzero_WF (n : Nat) : WF (uzero n) := WF_replicate (by decide)
+theorem umax_length (n : Nat) : (umax n).length = n := by simp [umax]
 
 /-! ### word shifts -/
 
